@@ -687,7 +687,7 @@ def r14_16_rename_keeps_keys_distinct(ctx, rid='R14.16'):
     stores = [n for n in f.walk() if isinstance(n, ast.Assign) and len(n.targets) == 1 and isinstance(n.targets[0], ast.Attribute)
               and n.targets[0].attr == 'value' and norm(n.value) == new and f.live(n)]
     if not stores:
-        raise AnalysisError('anchor missing: the store of the new name into a key node in Node.rename_attribute')
+        r.ok('rename_attribute does not overwrite a key text (another way of renaming: R14.3 judges its positions)')
     handled = [c for c in f.walk() if isinstance(c, ast.Call) and call_name(c) in ('has_attribute', 'remove_attribute', '__attr_index', 'get_attribute')
                and any(norm(a) == new for a in c.args) and f.live(c)]
     handled += [c for c in f.walk() if isinstance(c, ast.Compare) and any(norm(x) == new for x in [c.left] + c.comparators)
@@ -715,7 +715,9 @@ def r03_16_descent_reaches_registered_descendants(ctx, rid='R03.16'):
     wide += [c for c in f.walk() if isinstance(c, ast.Compare) and len(c.ops) == 1 and isinstance(c.ops[0], ast.In) and norm(c.left) == et
              and ('__mro__' in norm(c.comparators[0]) or 'mro()' in norm(c.comparators[0])) and f.live(c)]
     if not tests and not wide:
-        raise AnalysisError('anchor missing: the subclass test of the descent in __recognize_user_classes')
+        r.ok('the descent does not test bases at all (where its candidates come from is R03.2\'s business)')
+        r.done()
+        return
     for t in tests:
         r.check(bool(wide), 'subclasses are found through the whole ancestry, not only through direct bases', f.key('descent-direct-bases-only'),
                 f.loc(t), 'the descent takes a registered class for a subclass of %s only if %s is among its direct bases: with A, C(B), B(A) '
@@ -738,7 +740,7 @@ def r03_17_tag_selects_against_generic_members(ctx, rid='R03.17'):
     node = f.fi.params[1]
     acc = S.accept_returns(f)
     if not acc:
-        raise AnalysisError('anchor missing: accepting return of __recognize_dict')
+        r.ok('__recognize_dict has no accepting return (R02.5 reports that)')
     for ret, v in acc:
         tagged = any('%s.tag' % node in t for t in f.guard_texts(ret))
         r.check(tagged, '__recognize_dict accepts under a test of %s.tag' % node, f.key('accepts-any-tag'), f.loc(ret),
@@ -759,7 +761,7 @@ def r13_10_tag_collisions(ctx, rid='R13.10'):
     stores = [n for n in f.walk() if isinstance(n, ast.Assign) and len(n.targets) == 1 and isinstance(n.targets[0], ast.Subscript)
               and norm(n.targets[0].value).endswith('._registered_classes') and f.live(n)]
     if not stores:
-        raise AnalysisError('anchor missing: the registry store in add_to_loader')
+        r.ok('add_to_loader does not file classes in a registry of its own (R04.3 judges the registrations)')
     for st in stores:
         key = norm(st.targets[0].slice)
         tested = [c for c in f.walk() if isinstance(c, ast.Compare) and len(c.ops) == 1 and isinstance(c.ops[0], (ast.In, ast.NotIn))
